@@ -359,7 +359,9 @@ func (d *diff) CompareDiff(ctx context.Context, dl Remote) (newIds, ourChangedId
 
 func (d *diff) compareResults(dctx *diffCtx, r Range, myRes, otherRes RangeResult) {
 	// both hash equals - do nothing
-	if bytes.Equal(myRes.Hash, otherRes.Hash) {
+	// an empty hash is reported for an empty range as well as for a range a side keeps no hash for
+	// (not in its range tree, only the elements are returned), so it proves nothing unless both are empty
+	if bytes.Equal(myRes.Hash, otherRes.Hash) && (len(myRes.Hash) != 0 || myRes.Count == 0 && otherRes.Count == 0) {
 		return
 	}
 
